@@ -84,6 +84,14 @@ func genHpackTables(repo string) (string, error) {
 //	                            (END_HEADERS) is the one for which the remaining block is <= maxFrameSize (true: today's loops
 //	                            `if len(frag) > maxFrameSize {cut}` + `len(rest) == 0`, or a helper testing `<=`) or < maxFrameSize (false)
 //	h2_hpack_multi_update       hpack.go Decoder.Write: `d.firstField = false` in the parse loop is guarded by `if !sizeUpdate` (true) or unconditional (false)
+//	h2_goaway_last_is_max       mhttp2.go MServerConn.goAway: the last-stream-id written is sc.maxClientStreamID itself (true); anything else
+//	                            (a variable, a constant such as 1<<31-1 for NO_ERROR) is false
+//	h2_goaway_old_continue      mhttp2.go MServerConn.processHeaders: the inGoAway test that ignores HEADERS spares the streams at or below
+//	                            sc.maxClientStreamID of a graceful GOAWAY (condition mentions maxClientStreamID: true) or ignores every HEADERS (false)
+//	h2_goaway_late_discarded    mhttp2.go MServerConn.HandleFrame: before the frame switch an `if` on sc.inGoAway and sc.maxClientStreamID returns
+//	                            (frames of refused streams are discarded: true); absent: they reach the idle-stream rules (false)
+//	h2_client_goaway_zero       stream/http2/stream.go clientStream.ResetStream: the retriable test is `s.sc.goAway && s.id > s.sc.lastStream` (true) or
+//	                            needs `lastStream > 0` (false)
 func genH2Src(repo string) (string, error) {
 	var b strings.Builder
 	b.WriteString("From Coq Require Import NArith ZArith.\n")
@@ -632,6 +640,107 @@ func genH2Src(repo string) (string, error) {
 		atcmp = "false"
 	}
 	fmt.Fprintf(&b, "Definition h2_hpack_at_u64cmp := %s.\n", atcmp)
+	// --- graceful GOAWAY
+	mentions := func(e ast.Node, name string) bool {
+		found := false
+		ast.Inspect(e, func(n ast.Node) bool {
+			if sel, isSel := n.(*ast.SelectorExpr); isSel && sel.Sel.Name == name {
+				found = true
+			}
+			return true
+		})
+		return found
+	}
+	gaLast := ""
+	if fd := FindFunc(mf, "MServerConn", "goAway"); fd != nil {
+		ast.Inspect(fd.Body, func(n ast.Node) bool {
+			c, isCall := n.(*ast.CallExpr)
+			if !isCall || gaLast != "" {
+				return true
+			}
+			if sel, isSel := c.Fun.(*ast.SelectorExpr); isSel && sel.Sel.Name == "writeUint32" && len(c.Args) == 2 {
+				// the first writeUint32 of the frame is the last-stream-id
+				if mentions(c.Args[1], "maxClientStreamID") {
+					gaLast = "true"
+				} else {
+					gaLast = "false"
+				}
+			}
+			return true
+		})
+	}
+	if gaLast == "" {
+		ok = false
+		gaLast = "false"
+	}
+	fmt.Fprintf(&b, "Definition h2_goaway_last_is_max := %s.\n", gaLast)
+	gaOld := ""
+	if fd := FindFunc(mf, "MServerConn", "processHeaders"); fd != nil {
+		for _, st := range fd.Body.List {
+			if is, isIf := st.(*ast.IfStmt); isIf && mentions(is.Cond, "inGoAway") {
+				if mentions(is.Cond, "maxClientStreamID") {
+					gaOld = "true"
+				} else {
+					gaOld = "false"
+				}
+				break
+			}
+		}
+		if gaOld == "" {
+			gaOld = "true" // no GOAWAY test in processHeaders at all: HEADERS are never ignored there
+		}
+	}
+	if gaOld == "" {
+		ok = false
+		gaOld = "false"
+	}
+	fmt.Fprintf(&b, "Definition h2_goaway_old_continue := %s.\n", gaOld)
+	gaLate := ""
+	if fd := FindFunc(mf, "MServerConn", "HandleFrame"); fd != nil {
+		gaLate = "false"
+		for _, st := range fd.Body.List {
+			if _, isSw := st.(*ast.TypeSwitchStmt); isSw {
+				break
+			}
+			if is, isIf := st.(*ast.IfStmt); isIf && mentions(is.Cond, "inGoAway") && mentions(is.Cond, "maxClientStreamID") && len(is.Body.List) > 0 {
+				if _, isRet := is.Body.List[len(is.Body.List)-1].(*ast.ReturnStmt); isRet {
+					gaLate = "true"
+				}
+			}
+		}
+	}
+	if gaLate == "" {
+		ok = false
+		gaLate = "false"
+	}
+	fmt.Fprintf(&b, "Definition h2_goaway_late_discarded := %s.\n", gaLate)
+	gaZero := ""
+	if fd := FindFunc(sf, "clientStream", "ResetStream"); fd != nil {
+		for _, st := range fd.Body.List {
+			if is, isIf := st.(*ast.IfStmt); isIf && mentions(is.Cond, "lastStream") {
+				needsPositive := false
+				ast.Inspect(is.Cond, func(n ast.Node) bool {
+					if be, isBe := n.(*ast.BinaryExpr); isBe && be.Op == token.GTR {
+						if lit, isLit := be.Y.(*ast.BasicLit); isLit && lit.Value == "0" && mentions(be.X, "lastStream") {
+							needsPositive = true
+						}
+					}
+					return true
+				})
+				if !needsPositive && mentions(is.Cond, "goAway") {
+					gaZero = "true"
+				} else {
+					gaZero = "false"
+				}
+				break
+			}
+		}
+	}
+	if gaZero == "" {
+		ok = false
+		gaZero = "false"
+	}
+	fmt.Fprintf(&b, "Definition h2_client_goaway_zero := %s.\n", gaZero)
 	fmt.Fprintf(&b, "Definition H2Src_translator_ok := %v.\n", ok)
 	return b.String(), nil
 }
